@@ -281,6 +281,33 @@ func (st *Store) Eq(a, b *Term) *Term {
 			return st.Not(a)
 		}
 	}
+	// injective hash UFs: H(x) = H(y)  <=>  x = y ; different H never collide
+	if a.op == "uf" && b.op == "uf" && strings.HasPrefix(a.name, "H_") && strings.HasPrefix(b.name, "H_") {
+		if a.name != b.name {
+			return st.Bool(false)
+		}
+		return st.Eq(a.args[0], b.args[0])
+	}
+	// equality of concatenations splits at the boundary (resolves
+	// concrete segments that differ without the solver)
+	if a.sort.K == SBV && (a.op == "concat" || b.op == "concat") {
+		c, o := a, b
+		if c.op != "concat" {
+			c, o = b, a
+		}
+		lw := c.args[1].sort.W
+		w := c.sort.W
+		oh := st.Extract(o, w-1, lw)
+		ol := st.Extract(o, lw-1, 0)
+		// only when the other side splits cleanly too (constant or concat at the same boundary)
+		if (oh.op != "extract" && ol.op != "extract") || o.op == "const" {
+			lo := st.Eq(c.args[1], ol)
+			if lo.isFalse() {
+				return lo
+			}
+			return st.And(st.Eq(c.args[0], oh), lo)
+		}
+	}
 	if a.id > b.id {
 		a, b = b, a
 	}
